@@ -677,7 +677,7 @@ func TestCheck(t *testing.T) {
 	thorough := ev.Thorough()
 	budget := 70 * time.Second
 	if thorough {
-		budget = 28 * time.Minute
+		budget = 22 * time.Minute
 	}
 	deadline := time.Now().Add(budget)
 	rep.Info["rule"] = "state = (wire ledger: every window in both directions, per-stream queued/held bytes and stream states; handler control states; the server's own outflow/inflow variables and scheduler ring); transition = one client frame or one handler step executed on the real serverConn, followed by quiescence; every quiescent state is judged by the ledger; distinct_nontrivial = distinct (mode, multiset of action kinds) of executed transitions"
